@@ -3,6 +3,7 @@ package main
 import (
 	"fmt"
 	"os"
+	"path/filepath"
 	"regexp"
 	"strings"
 	"sync"
@@ -50,10 +51,13 @@ func checkC03(c *Ctx) error {
 		return err
 	}
 	writeTree(root, Tree{"regex-assembly/include/f.ra": "inc1\ninc2\n", "regex-assembly/exclude/x.ra": "inc1\n"})
-	var cli int64
+	var cli, tseq int64
+	traceDir := filepath.Join(c.Scratch, "c03traces")
+	os.MkdirAll(traceDir, 0o755)
 	gen := func(dir, text string) string {
 		atomic.AddInt64(&cli, 1)
-		r := c.runCLI(dir, text, "-d", dir, "regex", "generate", "-")
+		tf := filepath.Join(traceDir, fmt.Sprintf("t%d.ndjson", atomic.AddInt64(&tseq, 1)))
+		r := c.runCLIEnv(dir, text, []string{"CRS_VERIF_TRACE=" + tf}, 20*time.Second, "-d", dir, "regex", "generate", "-")
 		return fmt.Sprintf("exit=%d stdout=%q", r.Exit, r.Stdout)
 	}
 	// 2. multi-claimable lines: R fresh processes each, all equal to the program the spec names
@@ -138,6 +142,25 @@ func checkC03(c *Ctx) error {
 		}
 		c.markNontrivial(hashOf(j.text))
 	})
+	// Direction B: what the parser recorded in all these runs - the kind it gave every line
+	// must be the kind of Classify, and the iteration orders actually taken are counted
+	pft := newParseFmtTrace()
+	tfiles, _ := filepath.Glob(filepath.Join(traceDir, "*.ndjson"))
+	for _, f := range tfiles {
+		if err := pft.add(f); err != nil {
+			return err
+		}
+	}
+	os.RemoveAll(traceDir)
+	pres, err := pft.validate(c)
+	if err != nil {
+		return err
+	}
+	if !pres.Accepted {
+		c.violation("trace", map[string]any{"why": "the parser classified a line differently from the specification (Classify!Kind), or several directive patterns claim it", "record": pres.BadKind})
+	}
+	c.Cov["recorded_line_kinds_validated"] = pres.TotalK
+	c.Cov["map_orders_seen"] = len(pft.orders)
 	// 4. format, update, compare from identical trees
 	var treeJobs int64
 	parallel(len(voc), 16, func(i int) {
